@@ -62,6 +62,38 @@ def make_body_a(maxlen, info):
     return spec, body
 
 
+ENUM_ALPHABET = ["'", 'a', ' ', '\n', 'é', '"', ')']
+
+
+def make_body_a2(maxlen, info):
+    """the same round trip over class representatives, computed on concrete strings (solver-enumerated): independent of
+    CrossHair's modelling of whatever string methods an implementation uses"""
+    from yldprolog.yp_prolog_visitor import YPPrologVisitor
+    from crosshair.tracers import NoTracing
+    n = len(ENUM_ALPHABET)
+    spec = [('c%d' % i, 'int', '0 <= c%d <= %d' % (i, n)) for i in range(maxlen)]
+    vis = YPPrologVisitor.__new__(YPPrologVisitor)
+
+    def body(vals):
+        t = ''
+        for c in vals:
+            for k in range(n):
+                if c == k:
+                    t += ENUM_ALPHABET[k]
+        with NoTracing():
+            q = "'" + t.replace("'", chr(92) + "'") + "'"
+            try:
+                r = YPPrologVisitor.unquoteString(vis, q)
+            except Exception as e:
+                info['reason'] = 'unquoteString(%r) raised %s' % (q, type(e).__name__)
+                return ch.VIOLATED
+            if r != t:
+                info['reason'] = 'unquoteString(%r) = %r, expected %r' % (q, r, t)
+                return ch.VIOLATED
+        return ch.HOLDS_NONTRIVIAL if "'" in t else ch.HOLDS_TRIVIAL
+    return spec, body
+
+
 class StringLongestMatch(ch.DirectUnit):
     """z3 on the STRING rule of the grammar"""
 
@@ -120,6 +152,7 @@ class StringLongestMatch(ch.DirectUnit):
 
 
 X, Y, T, H = V('X'), V('Y'), V('T'), V('H')
+neq_ = lambda a, b: ('call', F('\\=', a, b))
 _ = lambda k: V('_anon%d' % k)
 
 
@@ -136,7 +169,12 @@ def literal_skeletons():
        ('p', ['any', 'any', 'any']))
     sk('quoted', [(F('p', A("it's"), A('two\nlines'), A('hé 五')), TRUE), (F('p', A('A b'), A(''), A('[]')), TRUE)],
        ('p', ['any', 'any', ('fixed', V('Q3'))]))
-    sk('anon', [(F('p', _(1), _(2), F('f', _(3))), TRUE)],
+    sk('quotedpos', [(F('r', A('two\nlines'), C(1)), TRUE), (F('r', A("it's"), C(2)), TRUE),
+                     (F('q', X, A('hé')), eq(X, A("it's"))), (F('q', X, Y), conj(call('r', A('two\nlines'), X), eq(Y, A('A b')))),
+                     (F('q', X, Y), conj(call('r', Y, X), neq_(Y, A('two\nlines'))))],
+       ('q', ['any', 'any']))
+    sk('anon',
+ [(F('p', _(1), _(2), F('f', _(3))), TRUE)],
        ('p', ['any', 'any', 'any']))
     sk('nilint', [(F('p', NIL, C(0), L()), TRUE), (F('p', L(NIL), C(7), L(L(C(1)))), TRUE)],
        ('p', ['any', 'any', 'any']))
@@ -230,6 +268,9 @@ def units(tier, seed):
     maxlen = 4 if tier == 'quick' else 6
     us.append(dict(id='a.unquote.len%d' % maxlen, kind='a', maxlen=maxlen, fixed={}, ob='C16.a', timeout=300 if tier == 'quick' else 2400, weight=60,
                    bounds='texts of length <=%d over full Unicode' % maxlen))
+    for c0 in range(len(ENUM_ALPHABET) + 1):
+        us.append(dict(id='a2.unquote.enum.c0=%d' % c0, kind='a2', maxlen=4, fixed={'c0': c0}, ob='C16.a', timeout=300, weight=40,
+                       bounds='texts of length <=4 over the class representatives %r (solver-enumerated, native), first symbol %d' % (ENUM_ALPHABET, c0)))
     us.append(dict(id='b.string-longest-match', kind='b', fixed={}, ob='C16.b', timeout=200, weight=20, bounds='unbounded regular-expression reasoning (z3)'))
     for sk in literal_skeletons():
         us.append(dict(id='c.literal.%s' % sk['name'], kind='c', skeleton=sk['name'], fixed={}, ob='C16.c', timeout=300 if tier == 'quick' else 1200,
@@ -250,6 +291,8 @@ def build(u):
         return build_sld_unit(u, sk)
     if u['kind'] == 'a':
         spec, body = make_body_a(u['maxlen'], info)
+    elif u['kind'] == 'a2':
+        spec, body = make_body_a2(u['maxlen'], info)
     elif u['kind'] == 'd':
         spec, body = make_body_d(info)
     else:
